@@ -642,6 +642,32 @@ static void run(const vf::Args &args, Report &rep)
                 if ((t & 7) == 0) check_exp(r, g.pick(q), (t & 8) ? g.pick(q) : q.next() >> q.below(64), "exp_random");
             }
         });
+    // concurrent callers (after every forked family: the parent must not start an OpenMP team before a fork)
+    {
+        const int T = 8;
+        uint64_t nc = args.getu("concurrent", args.thorough() ? 4000000ULL : 400000ULL) / args.nshards / T + 1;
+        struct Bad { const char *op = nullptr; uint64_t a = 0, b = 0; } bad[T];
+        uint64_t seeds[T];
+        for (int t = 0; t < T; t++) seeds[t] = vf::mix64(args.seed, 0x10CC + args.shard * 131 + t);
+#pragma omp parallel num_threads(T)
+        {
+            int me = omp_get_thread_num() % T;
+            Rng q(seeds[me]);
+            for (uint64_t t = 0; t < nc; t++)
+            {
+                uint64_t a = g.pick(q), b = g.pick(q);
+                if (orc::canon(a) == 0) a = 7;
+                uint64_t ia = orc::inv(a);
+                if (cn(Goldilocks::inv(mk(a))) != ia && !bad[me].op) { bad[me].op = "inv"; bad[me].a = a; }
+                if (cn(Goldilocks::div(mk(b), mk(a))) != orc::mul(b, ia) && !bad[me].op) { bad[me].op = "div"; bad[me].a = b; bad[me].b = a; }
+                if ((t & 3) == 0 && cn(Goldilocks::exp(mk(a), b)) != orc::pw(a, b) && !bad[me].op) { bad[me].op = "exp"; bad[me].a = a; bad[me].b = b; }
+            }
+        }
+        for (int t = 0; t < T; t++)
+            if (bad[t].op) rep.violation(std::string("C10:") + bad[t].op + ":concurrent-callers:wrong-value", J().str("op", bad[t].op).h("a", bad[t].a).h("b", bad[t].b).str("what", "8 threads calling the operation at the same time on their own operands").done());
+        rep.evaluations += nc * T;
+        rep.cls("family:concurrent_callers", nc * T);
+    }
 }
 } // namespace c10
 
@@ -872,6 +898,46 @@ static void run(const vf::Args &args, Report &rep)
             if (rng.coin()) v = -v;
             check_str(rep, z, v, 2 + (int)rng.below(35), rng.coin(), "string_random");
         }
+    }
+    // ---- concurrent callers: conversions in both directions from 8 threads, own values
+    {
+        const int T = 8;
+        uint64_t nc = args.getu("concurrent", args.thorough() ? 1600000ULL : 160000ULL) / args.nshards / T + 1;
+        struct Bad { const char *op = nullptr; uint64_t v = 0; } bad[T];
+        uint64_t seeds[T];
+        for (int t = 0; t < T; t++) seeds[t] = vf::mix64(args.seed, 0x15CC + args.shard * 131 + t);
+#pragma omp parallel num_threads(T)
+        {
+            int me = omp_get_thread_num() % T;
+            Rng q(seeds[me]);
+            for (uint64_t t = 0; t < nc; t++)
+            {
+                uint64_t v = g.pick(q);
+                uint64_t c = orc::canon(v);
+                auto flag = [&](const char *op) { if (!bad[me].op) { bad[me].op = op; bad[me].v = v; } };
+                if (Goldilocks::toU64(mk(v)) != c) flag("toU64");
+                if (Goldilocks::toS64(mk(v)) != centred(c)) flag("toS64");
+                if (cn(Goldilocks::fromS64((int64_t)v)) != ((int64_t)v >= 0 ? v % PP : (PP - (uint64_t)(-(int64_t)(v + 1)) % PP - 1) % PP)) flag("fromS64");
+                if ((t & 3) == 0)
+                {
+                    int radix = 2 + (int)q.below(35);
+                    std::string sdec = Goldilocks::toString(mk(v), radix);
+                    if (cn(Goldilocks::fromString(sdec, radix)) != c) flag("toString/fromString");
+                    mpz_class zz;
+                    mpz_import(zz.get_mpz_t(), 1, 1, 8, 0, 0, &v);
+                    if (q.coin()) zz = -zz;
+                    uint64_t e = mpz_sgn(zz.get_mpz_t()) >= 0 ? v % PP : (PP - v % PP) % PP;
+                    if (cn(Goldilocks::fromScalar(zz)) != e) flag("fromScalar");
+                }
+                int64_t ce = centred(c);
+                if (ce >= -2147483648LL && ce <= 2147483647LL) { int32_t o; if (!Goldilocks::toS32(o, mk(v)) || o != (int32_t)ce) flag("toS32"); }
+                if (Goldilocks::isZero(mk(v)) != (c == 0) || Goldilocks::isOne(mk(v)) != (c == 1) || !Goldilocks::equal(mk(v), mk(c))) flag("predicates");
+            }
+        }
+        for (int t = 0; t < T; t++)
+            if (bad[t].op) rep.violation(std::string("C15:") + bad[t].op + ":concurrent-callers", J().str("op", bad[t].op).h("value", bad[t].v).str("what", "8 threads converting their own values at the same time").done());
+        rep.evaluations += nc * T;
+        rep.cls("family:concurrent_callers", nc * T);
     }
 }
 } // namespace c15
